@@ -46,9 +46,9 @@ def make(d, k, c, seed):
     for t in range(nt):
         h = {segyio.TraceField.CDP: t + 1, segyio.TraceField.CDP_X: 1000 + 10 * t, segyio.TraceField.offset: 3, segyio.TraceField.FieldRecord: 20000 + t * t}
         if v == 'il':
-            h[segyio.TraceField.INLINE_3D], h[segyio.TraceField.CROSSLINE_3D] = 7, 100 + 2 * t
+            h[segyio.TraceField.INLINE_3D], h[segyio.TraceField.CROSSLINE_3D] = 7, (100 + 2 * t, -4 + 2 * t)[(k // 2) % 2]
         elif v == 'xl':
-            h[segyio.TraceField.INLINE_3D], h[segyio.TraceField.CROSSLINE_3D] = 50 + t, 9
+            h[segyio.TraceField.INLINE_3D], h[segyio.TraceField.CROSSLINE_3D] = (50 + t, -3 + t)[k % 2], (9, 0)[k % 2]       # (line numbers through 0 are ordinary)
         hdrs.append(h)
     sgy = os.path.join(d, f'l{k}.sgy')
     # first sample after, at, before time zero (a negative delay recording time); 2 ms or 4 ms sampling
